@@ -445,6 +445,10 @@ func c12History(r *core.Run) {
 		})
 	}
 	sched.Run()
+	if sched.Foreign > 0 {
+		// goroutines started by the code under test ran through yield points outside the scheduler's control
+		r.Count("yield_points_reached_by_foreign_goroutines(schedule_not_exactly_replayable)", int64(sched.Foreign))
+	}
 	for hi, h := range [][]c12Call{hA, hB} {
 		for ci, c := range h {
 			r.Eval()
